@@ -135,6 +135,7 @@ type Options struct {
 	StmtDensity int  // percent of statement-level sites enabled as preemption points
 	TickWeight int   // percent chance (per decision with armed tickers) to fire a tick spontaneously
 	PoolDrop   int   // percent: Pool.Get ignores the cache
+	OnFinished func()   // called by Run when the episode is over, before parked tasks are released to die
 	Replay     []uint32 // if non-nil: choices are read from here
 	Strict     bool     // replay must match exactly
 	NumSites   int
@@ -262,6 +263,9 @@ func (s *Sim) Run(root func()) Result {
 	s.cur = t
 	s.passTo(t)
 	s.waitFinished()
+	if s.opt.OnFinished != nil {
+		s.opt.OnFinished()
+	}
 	s.dead = true
 	s.wakeAll()
 	// let every parked goroutine leave
